@@ -30,22 +30,22 @@ func (c08) Cases(tier string) int {
 
 func (c08) Thresholds(tier string) map[string]int64 {
 	return map[string]int64{
-		"tree-comparisons":    6000,
-		"trace-comparisons":   6000,
-		"dim:tabs":            500,
-		"dim:indent-width":    2000,
-		"dim:if-body-flat":    1500,
-		"dim:crlf":            500,
-		"dim:cr":              500,
-		"dim:full-parens":     800,
-		"dim:redundant-parens": 800,
-		"dim:spellings":       1500,
-		"dim:extra-blanks":    1500,
-		"dim:filler-lines":    2000,
-		"dim:trailing-comments": 1500,
-		"dim:reader-split":    1000,
-		"dim:no-final-eol":    800,
-		"layout:filler:blank@between-stmts":             500,
+		"tree-comparisons":                  6000,
+		"trace-comparisons":                 6000,
+		"dim:tabs":                          500,
+		"dim:indent-width":                  2000,
+		"dim:if-body-flat":                  1500,
+		"dim:crlf":                          500,
+		"dim:cr":                            500,
+		"dim:full-parens":                   800,
+		"dim:redundant-parens":              800,
+		"dim:spellings":                     1500,
+		"dim:extra-blanks":                  1500,
+		"dim:filler-lines":                  2000,
+		"dim:trailing-comments":             1500,
+		"dim:reader-split":                  1000,
+		"dim:no-final-eol":                  800,
+		"layout:filler:blank@between-stmts": 500,
 		"layout:filler:comment-shallower@between-stmts": 100,
 		"layout:filler:comment-deeper@between-stmts":    100,
 		"layout:filler:ws-only-shallower@between-stmts": 50,
@@ -57,18 +57,21 @@ func (c08) Thresholds(tier string) map[string]int64 {
 		"layout:filler:blank@node-last":                 100,
 		"filler-inside-nested-body":                     500,
 		"k2-jumps":                                      1000,
+		"dim:tabs-and-blanks-per-line":                  400,
+		"dim:mixed-whitespace-on-blank-lines":           800,
+		"layout:filler:mixed-tab-blank-whitespace":      2000,
 	}
 }
 
 func (c08) Rule() string {
-	return "case = one generated program rendered in the canonical layout L0 and in 4 (quick) / 10 (thorough) PRNG layouts: indent unit 1-8 blanks or 1-2 tabs, if bodies indented or flat, LF/CRLF/CR, minimal/full/redundant parentheses, operator spellings per occurrence, extra blanks inside << >> and { }, blank / white-space-only / comment lines (at column 0, at the body's depth, deeper and shallower) at every insertion point (between statements, between an option line and its body, between options, before elseif/else/endif, between headers, first/last in a node, between nodes), trailing comments, and a different node-to-reader split. Oracle: tree.FromReaders of every rendering is reflect.DeepEqual to L0's, and along shared PRNG choice paths every rendering produces the model's trace. Non-trivial: the variant differs from L0 in >=2 dimensions and the program nests >=2 deep. Distinct by hash of the variant's text."
+	return "case = one generated program rendered in the canonical layout L0 and in 4 (quick) / 10 (thorough) PRNG layouts: indent unit 1-8 blanks or 1-2 tabs, or per line either tabs or 8 blanks per level (a tab is 8 columns), if bodies indented or flat, LF/CRLF/CR, minimal/full/redundant parentheses, operator spellings per occurrence, extra blanks inside << >> and { }, blank / white-space-only / comment lines (at column 0, at the body's depth, deeper and shallower; their white space may mix tabs and blanks, since they carry no statement) at every insertion point (between statements, between an option line and its body, between options, before elseif/else/endif, between headers, first/last in a node, between nodes), trailing comments, and a different node-to-reader split. Oracle: tree.FromReaders of every rendering is reflect.DeepEqual to L0's, and along shared PRNG choice paths every rendering produces the model's trace. Non-trivial: the variant differs from L0 in >=2 dimensions and the program nests >=2 deep. Distinct by hash of the variant's text."
 }
 
 func (c08) Assumptions() []string {
 	return []string{
 		"layout never touches token content: the blanks between a line's text and its first tag or trailing comment, and the text itself, are the same in all renderings",
 		"exactly one blank follows <<jump (two or more is the known lexer-grammar finding K2, exercised separately by its reproducer)",
-		"white-space-only filler lines use the file's own indentation character (no tab/space mixing)",
+		"a tab counts as 8 columns (the convention of Yarn Spinner's indentation-aware lexer, which ysgo ports): a line indented with d tabs is at the same level as a line indented with 8*d blanks",
 	}
 }
 
